@@ -27,7 +27,21 @@ def run(ctx):
         # flat: comp(list, (elt,), ((target, iter, ifs),)) ; nested: elt is itself a comp
         elt = t[2][0]
         gens = t[3]
+        # a couple may be built as list(...) / tuple(...) of a generator
+        container = "list"
+        if elt[0] == "call" and elt[1] in ("builtins.tuple", "builtins.list") and elt[2] and elt[2][0][0] == "comp":
+            container = elt[1].split(".")[-1]
+            elt = elt[2][0]
+        elif elt[0] == "comp" and elt[1] != "list":
+            container = elt[1]
         nested = elt[0] == "comp"
+        if nested:
+            # the dual of a paired map must itself be in the paired form that dual_channel / apply_channel classify by
+            # isinstance(phi_op[0], list): couples returned as tuples (or generators) are not recognised on the way back in
+            ctx.ob("R-SIB", dc, "paired form: the couples of the result are lists (the form the input classifier recognises)", container == "list",
+                   "[[A^+, B^+], ...]" if container == "list" else
+                   f"each couple is returned as a {container}: `isinstance(phi_op[0], list)` is False for the result, so dual_channel(dual_channel(pairs)) is rejected "
+                   "(the dual of the dual no longer acts as the map)", rn)
         form = "pair" if nested else "flat"
         filt = any(g[2] for g in gens)
         inner = elt
@@ -112,6 +126,9 @@ def run(ctx):
 
     # ---- complementary channel -----------------------------------------------------------------
     cc = m.func("complementary_channel.complementary_channel")
+    from ..rules import r_family_preserved
+    r_family_preserved(ctx, cc, "kraus_ops", what="Kraus operator")
+    r_family_preserved(ctx, m.func("dual_channel.dual_channel"), "phi_op", what="Kraus operator")
     Nc = Normalizer(m, cc)
     Nn = Normalizer(m, cc, inline=False)
     res = flw.flow(cc.node)
